@@ -21,9 +21,9 @@ CHECKS = {
    technique="deterministic simulation: SimDisk stored-byte faults enumerated per file from a container model + callback fault at every index"),
  "C09": dict(
    category="exploration",
-   text="Seeded call histories over {Encode(record of chosen size), Flush} run against a fault-free SimDisk; after EVERY call the bytes on disk are parsed by the independent container model and compared with a framing model (pending list, per-record encodings from the library's own codec): only complete blocks visible, count>=1, exact byte length, header's sync, payload == concatenation of the next 'count' encodings in order, block emitted as soon as pending bytes reach the block size, Flush leaves nothing pending and writes nothing when nothing is pending, conservation.",
+   text="Seeded call histories over {Encode(record of chosen size), Flush} run against a fault-free SimDisk; after EVERY call the bytes on disk are parsed by the independent container model and compared with a framing model (pending list, per-record encodings from the library's own codec): only complete blocks visible, count>=1, exact byte length, header's sync, payload == concatenation of the next 'count' encodings in order, block emitted as soon as pending bytes reach the block size and not before (unless Flush is called), Flush leaves nothing pending and emits no block when nothing is pending, conservation.",
    design_ref="§5 C09",
-   note="Sampled histories (length 1..200, block sizes incl. 0/1/2/near-record-size/exact sums/huge, 3 codecs, zero-width/one-byte/padded/nested records). Early emission is not flagged.",
+   note="Sampled histories (length 1..200, block sizes incl. 0/1/2/near-record-size/exact sums/huge, 3 codecs, zero-width/one-byte/padded/nested records, records up to 3 MiB, record counts and byte lengths at varint boundaries). A block emitted by Encode must hold at least the block size (NewEncoderFor's documented contract); when the header is written is not judged. Fault-free writer only: what the encoder owes after a failed write is not stated by the property and not judged.",
    technique="deterministic simulation: seeded call histories against SimDisk with a reference framing model checked after every step"),
  "C16": dict(
    category="fault_enumeration",
@@ -35,7 +35,7 @@ CHECKS = {
    category="exploration",
    text="1..3 ReadFile tasks run as coroutines over their own multi-block files (3 codecs, both writers) interleaved by the plan, plus a direct ReadBuf/ResourceBank user; the bank pool is the simulator's (hooks): each bank request gets the oldest / newest / another free bank or a fresh one, as the plan says. After EVERY operation: every record whose bank is open equals the deep copy taken at delivery and equals the same record read with fresh banks only; every Alloc is all-zero on return although the previous owner poisoned the memory before closing; all live allocations and interned strings are pairwise disjoint; no bank is issued to two live users.",
    design_ref="§5 C10",
-   note="Sampled histories (<=150 operations). The simulated pool over-approximates sync.Pool (any previously closed bank or a new one). Nothing is inspected after its bank is closed.",
+   note="Sampled histories (<=150 operations incl. step/close/abort/restart of readers, gc+churn, allocation bursts, direct ReadBuf use with Reset+decode). The simulated pool over-approximates sync.Pool (any previously closed bank or a new one). Nothing is inspected after its bank is closed. Additional oracles: same record read with fresh banks only; each record alone vs after its predecessors; one retain-all read per file (zone names of decoded times included).",
    technique="deterministic simulation: interleaved reader coroutines + simulator-owned bank pool (plan-chosen recycling), invariants after every step"),
  "C11": dict(
    category="exploration",
@@ -47,7 +47,7 @@ CHECKS = {
    category="exploration",
    text="2..6 real goroutines run seeded lists of independent operations (build codecs, Register/RegisterSchema own types with versioned builders, decode/encode with SHARED codecs, ReadFile, Encoder, close banks received from other goroutines, SchemaForType, timestamp parsing with seeded zone offsets) under a token scheduler that releases one goroutine at a time from the plan's pre-drawn schedule and is invisible to the Go race detector (//go:norace spin on a plain word). Judge 1: the race detector's report stream must be empty. Judge 2: every operation's result equals the result of that goroutine's list re-executed alone. The simulated bank pool contributes exactly sync.Pool's Put->Get edge per bank.",
    design_ref="§5 C12",
-   note="Sampled schedules. Race detector limits apply (bounded shadow history, one report per stack pair per process). Yield points: every SimDisk read/write, callback, operation boundary, and (hooks) before the registry, schema-registry and tz-cache locks and at pool get/put.",
+   note="Sampled schedules. Race detector limits apply (bounded shadow history, one report per stack pair per process). Interleavings are chosen at yield points only: every SimDisk read/write, callback, operation boundary, and (hooks) before the registry, schema-registry and tz-cache locks and at pool get/put — an atomicity violation between two instructions with no yield point between them and no data race (e.g. an unlocked load-clone-store of an atomic pointer) is out of reach (DESIGN §13.1). Half of the plans use 1-4 operation kinds only and a third never recycle a bank, because lock hand-overs and recycled banks are legitimate happens-before edges that would otherwise order everything.",
    technique="deterministic simulation: seeded token scheduler over real goroutines (race-detector-invisible) + Go race detector as happens-before judge + run-alone equivalence oracle"),
  "C06": dict(
    category="exploration",
